@@ -53,7 +53,8 @@ RelShape(ta, tb) ==
   ELSE [ch \in 1..NChan(tb) |-> <<1, ch>>]
 \* which source channels come with an A -> B -> A relation
 BackShape(ta, tb) ==
-  IF ta.kind = "bin" \/ tb.kind = "bin" THEN <<>>
+  IF ta.kind = "bin" THEN <<1>>
+  ELSE IF tb.kind = "bin" THEN <<>>
   ELSE IF IsRgb(ta) THEN (IF IsRgb(tb) THEN <<1, 2, 3>> ELSE <<>>)
   ELSE <<1>>
 
